@@ -2,9 +2,16 @@ package sysim
 
 import (
 	"context"
+	"crypto/ecdsa"
+	"crypto/elliptic"
+	crand "crypto/rand"
+	"crypto/tls"
+	"crypto/x509"
+	"crypto/x509/pkix"
 	"fmt"
 	"io"
 	"log/slog"
+	"math/big"
 	"math/rand/v2"
 	"net"
 	"net/netip"
@@ -56,6 +63,18 @@ type c07Req struct {
 
 	// ecs is the client-subnet option of the request ("" = none).
 	ecs string
+
+	// udpSize is the UDP size the request advertises in an OPT record of
+	// its own (0 = no such wish: an OPT record only when an option needs
+	// one).  sentSize is what went out (0 = no OPT record); c08 is what the
+	// judgement of the response's size and OPT record (C08, as a part of
+	// which the streams also run) has found wrong on the wire.
+	udpSize  uint16
+	sentSize uint16
+	c08      string
+
+	// padding and keepAlive: the request carries these options.
+	padding, keepAlive bool
 }
 
 type c07Upstream struct {
@@ -81,9 +100,27 @@ func (u *c07Upstream) ServeDNS(ctx context.Context, rw dnsserver.ResponseWriter,
 	for _, c := range strings.ToLower(q.Name) {
 		h = h*31 + uint32(c)
 	}
+	big := strings.Contains(strings.ToLower(q.Name), "big")
+	switch {
+	case big && q.Qtype == dns.TypeA:
+		// About a thousand octets.
+		for i := 0; i < 60; i++ {
+			resp.Answer = append(resp.Answer, &dns.A{
+				Hdr: dns.RR_Header{Name: q.Name, Rrtype: dns.TypeA, Class: dns.ClassINET, Ttl: 300},
+				A:   []byte{10, byte(h >> 8), byte(h), byte(i)},
+			})
+		}
+	case big && q.Qtype == dns.TypeTXT:
+		for i := 0; i < 5; i++ {
+			resp.Answer = append(resp.Answer, &dns.TXT{
+				Hdr: dns.RR_Header{Name: q.Name, Rrtype: dns.TypeTXT, Class: dns.ClassINET, Ttl: 300},
+				Txt: []string{strings.Repeat(string(rune('a'+i)), 180)},
+			})
+		}
+	}
 	switch q.Qtype {
 	case dns.TypeA:
-		for i := 0; i < 1+int(h%3); i++ {
+		for i := 0; i < 1+int(h%3) && !big; i++ {
 			resp.Answer = append(resp.Answer, &dns.A{
 				Hdr: dns.RR_Header{Name: q.Name, Rrtype: dns.TypeA, Class: dns.ClassINET, Ttl: 300},
 				A:   []byte{10, byte(h >> 16), byte(h >> 8), byte(i)},
@@ -100,10 +137,12 @@ func (u *c07Upstream) ServeDNS(ctx context.Context, rw dnsserver.ResponseWriter,
 		hs.Value = append(hs.Value, &dns.SVCBAlpn{Alpn: []string{"h2"}}, ips)
 		resp.Answer = append(resp.Answer, hs)
 	case dns.TypeTXT:
-		resp.Answer = append(resp.Answer, &dns.TXT{
-			Hdr: dns.RR_Header{Name: q.Name, Rrtype: dns.TypeTXT, Class: dns.ClassINET, Ttl: 300},
-			Txt: []string{fmt.Sprintf("txt-for-%s", strings.ToLower(q.Name))},
-		})
+		if !big {
+			resp.Answer = append(resp.Answer, &dns.TXT{
+				Hdr: dns.RR_Header{Name: q.Name, Rrtype: dns.TypeTXT, Class: dns.ClassINET, Ttl: 300},
+				Txt: []string{fmt.Sprintf("txt-for-%s", strings.ToLower(q.Name))},
+			})
+		}
 	}
 
 	// As a real upstream reply: unpacked from the wire.
@@ -122,6 +161,11 @@ func (u *c07Upstream) ServeDNS(ctx context.Context, rw dnsserver.ResponseWriter,
 type net6 = []byte
 
 func c07World(profs []*c07Profile, up dnsserver.Handler, cacheOn bool) (w *world.World, srv *agd.Server) {
+	return c07WorldProto(profs, up, cacheOn, agd.ProtoDNS)
+}
+
+// c07WorldProto is c07World with a server of protocol proto.
+func c07WorldProto(profs []*c07Profile, up dnsserver.Handler, cacheOn bool, proto agd.Protocol) (w *world.World, srv *agd.Server) {
 	var precs []*agd.Profile
 	var drecs []*agd.Device
 	for _, p := range profs {
@@ -165,6 +209,7 @@ func c07World(profs []*c07Profile, up dnsserver.Handler, cacheOn bool) (w *world
 	// same rewrite a copy with an ID of its own.
 	var rwMu sync.Mutex
 	rwSeen := map[string]uint16{}
+	rwFirst := map[string]*dns.Msg{}
 	flt := &agdtest.Filter{
 		OnFilterRequest: func(_ context.Context, req *filter.Request) (filter.Result, error) {
 			switch {
@@ -178,7 +223,12 @@ func c07World(profs []*c07Profile, up dnsserver.Handler, cacheOn bool) (w *world
 				rwMu.Lock()
 				key := fmt.Sprintf("%s/%d", req.Host, req.QType)
 				if k, again := rwSeen[key]; again {
+					// A copy of what the first requester's query was
+					// rewritten to, OPT record and all.
+					modReq = dnsmsg.Clone(rwFirst[key])
 					modReq.Id = 40000 + k
+				} else {
+					rwFirst[key] = dnsmsg.Clone(modReq)
 				}
 				rwSeen[key]++
 				rwMu.Unlock()
@@ -204,7 +254,7 @@ func c07World(profs []*c07Profile, up dnsserver.Handler, cacheOn bool) (w *world
 		},
 	}
 
-	srv = world.NewServer("dns", agd.ProtoDNS, "198.18.0.1:53", false)
+	srv = world.NewServer("dns", proto, "198.18.0.1:53", false)
 	cache := &dnssvc.CacheConfig{Type: dnssvc.CacheTypeNone}
 	if cacheOn {
 		cache = &dnssvc.CacheConfig{Type: dnssvc.CacheTypeECS, ECSCount: 100, NoECSCount: 100}
@@ -294,7 +344,15 @@ func c07Describe(m *dns.Msg, withTTL bool) string {
 	return fmt.Sprintf("id=%d rcode=%d q=%s an=%v ns=%v ex=%v", m.Id, m.Rcode, q, sec(m.Answer), sec(m.Ns), sec(m.Extra))
 }
 
-func runC07(s *kernel.Sim, cfg string) {
+// runC08 runs the streams through the real plain-DNS server on behalf of C08:
+// requests with and without OPT records and with various advertised sizes,
+// answers of about a thousand octets, and what arrives on the wire is judged
+// by size and OPT record.
+func runC08(s *kernel.Sim, _ string) { runStreams(s, "C08", "servers") }
+
+func runC07(s *kernel.Sim, cfg string) { runStreams(s, "C07", cfg) }
+
+func runStreams(s *kernel.Sim, prop, cfg string) {
 	t := s.T
 	modes := []dnsmsg.BlockingMode{
 		&dnsmsg.BlockingModeNullIP{},
@@ -314,6 +372,13 @@ func runC07(s *kernel.Sim, cfg string) {
 
 	up := &c07Upstream{rng: rand.New(rand.NewPCG(uint64(t.Choose(1<<30, "up-seed")), 7)), delay: cfg != "sequential"}
 	w, srv := c07World(profs, up, true)
+	if prop == "C08" {
+		// Behind a DoT server: on plain DNS the rate-limiting stage writes
+		// every response itself, with the query it received; on the
+		// encrypted transports what the inner stages hand to the response
+		// writer is what the server works with.
+		w, srv = c07WorldProto(profs, up, true, agd.ProtoDoT)
+	}
 
 	nStreams := t.Range(1, 6, "streams")
 	if cfg == "sequential" {
@@ -342,7 +407,19 @@ func runC07(s *kernel.Sim, cfg string) {
 			if t.Chance(1, 5, "client-subnet") {
 				r.ecs = kernel.Pick(t, []string{"192.0.2.0/24", "198.51.100.0/24", "0.0.0.0/0", "2001:db8:a::/48"}, "ecs")
 			}
-			switch t.Choose(7, "name-kind") {
+			kinds := 7
+			if prop == "C08" {
+				r.udpSize = kernel.Pick(t, []uint16{0, 0, 512, 600, 1232, 4096}, "udp-size")
+				r.padding = r.udpSize > 0 && t.Chance(1, 3, "padding")
+				r.keepAlive = r.udpSize > 0 && t.Chance(1, 4, "keep-alive")
+				r.qtype = kernel.Pick(t, []uint16{dns.TypeA, dns.TypeTXT}, "qtype-of-size")
+				kinds = 9
+			}
+			switch t.Choose(kinds, "name-kind") {
+			case 7:
+				r.name = fmt.Sprintf("cnamerw-big-%d.example.", t.Choose(2, "shared"))
+			case 8:
+				r.name = fmt.Sprintf("big-%d.example.", t.Choose(3, "shared"))
 			case 6:
 				r.name = fmt.Sprintf("cnamerw-%d.example.", t.Choose(3, "shared"))
 			case 0:
@@ -380,8 +457,32 @@ func runC07(s *kernel.Sim, cfg string) {
 	// stream that can run go first (one nanosecond of simulated sleep).
 	verifsim.Install(&verifsim.Hooks{Yield: func(string) { time.Sleep(time.Nanosecond) }})
 	defer verifsim.Install(nil)
+	maxUDP := uint16(0)
 	if cfg == "servers" {
-		c07ThroughServers(s, w, srv, streams)
+		if prop == "C08" {
+			maxUDP = kernel.Pick(t, []uint16{1232, 4096}, "max-udp-size")
+		}
+		c07ThroughServers(s, w, srv, streams, maxUDP)
+	}
+	if prop == "C08" {
+		for _, r := range all {
+			s.Logf("stream %d: %s/%d id=%d opt=%d -> %s", r.stream, r.name, r.qtype, r.id, r.sentSize, c07Describe(r.resp, false))
+			if r.resp != nil && r.resp.Len() > 512 {
+				s.Probe("full-stack-answer-over-512")
+			}
+			if r.resp != nil && r.resp.Truncated {
+				s.Probe("full-stack-answer-truncated")
+			}
+			if r.c08 != "" {
+				s.Failf("C08/full-stack", "through the whole handler stack: "+strings.SplitN(r.c08, ": ", 2)[0],
+					"stream %d, %s/%d id=%d (OPT size sent %d, server maximum %d): %s", r.stream, r.name, r.qtype, r.id, r.sentSize, maxUDP, r.c08)
+
+				return
+			}
+		}
+		s.MarkNontrivial()
+
+		return
 	}
 	var wg sync.WaitGroup
 	for si := range streams {
@@ -514,10 +615,10 @@ func stripOPT(m *dns.Msg) {
 // (UDP and TCP) on the simulated network, with the handler stack behind it and
 // the stack's cloner as the server's disposer: responses are released for
 // reuse by the server right after they are written.
-func c07ThroughServers(s *kernel.Sim, w *world.World, srv *agd.Server, streams [][]*c07Req) {
+func c07ThroughServers(s *kernel.Sim, w *world.World, srv *agd.Server, streams [][]*c07Req, maxUDP uint16) {
 	n := simnet.New(s)
 	h := w.Handlers[dnssvc.HandlerKey{Server: srv, ServerGroup: w.Group}]
-	ds := dnsserver.NewServerDNS(dnsserver.ConfigDNS{
+	dnsConf := dnsserver.ConfigDNS{
 		ConfigBase: dnsserver.ConfigBase{
 			Name:         string(srv.Name),
 			Addr:         "198.18.0.1:53",
@@ -528,7 +629,21 @@ func c07ThroughServers(s *kernel.Sim, w *world.World, srv *agd.Server, streams [
 		ReadTimeout:    2 * time.Second,
 		WriteTimeout:   2 * time.Second,
 		TCPIdleTimeout: 10 * time.Second,
-	})
+		MaxUDPRespSize: maxUDP,
+	}
+	overTLS := srv.Protocol == agd.ProtoDoT
+	var ds interface {
+		Start(ctx context.Context) error
+		Shutdown(ctx context.Context) error
+	}
+	if overTLS {
+		ds = dnsserver.NewServerTLS(dnsserver.ConfigTLS{
+			TLSConfig: &tls.Config{Certificates: []tls.Certificate{simCert()}, MinVersion: tls.VersionTLS12},
+			ConfigDNS: dnsConf,
+		})
+	} else {
+		ds = dnsserver.NewServerDNS(dnsConf)
+	}
 	if err := ds.Start(context.Background()); err != nil {
 		panic(err)
 	}
@@ -543,7 +658,7 @@ func c07ThroughServers(s *kernel.Sim, w *world.World, srv *agd.Server, streams [
 	for si := range streams {
 		reqs := streams[si]
 		rng := rand.New(rand.NewPCG(uint64(t.Choose(1<<30, "stream-seed")), uint64(si)))
-		overTCP := rng.IntN(3) == 0
+		overTCP := rng.IntN(3) == 0 || overTLS
 		wg.Add(1)
 		go func() {
 			defer wg.Done()
@@ -553,11 +668,25 @@ func c07ThroughServers(s *kernel.Sim, w *world.World, srv *agd.Server, streams [
 				req.Id = r.id
 				req.RecursionDesired = true
 				req.Question = []dns.Question{{Name: r.name, Qtype: r.qtype, Qclass: r.qclass}}
+				if r.udpSize > 0 {
+					req.SetEdns0(r.udpSize, false)
+					if r.padding {
+						req.IsEdns0().Option = append(req.IsEdns0().Option, &dns.EDNS0_PADDING{Padding: make([]byte, 7)})
+					}
+					if r.keepAlive {
+						req.IsEdns0().Option = append(req.IsEdns0().Option, &dns.EDNS0_TCP_KEEPALIVE{Code: dns.EDNS0TCPKEEPALIVE})
+					}
+				}
 				if r.prof != nil {
-					req.SetEdns0(1232, false)
+					if req.IsEdns0() == nil {
+						req.SetEdns0(1232, false)
+					}
 					req.IsEdns0().Option = append(req.IsEdns0().Option, &dns.EDNS0_LOCAL{Code: 65074, Data: []byte(r.prof.dev)})
 				}
 				addECS(req, r.ecs)
+				if opt := req.IsEdns0(); opt != nil {
+					r.sentSize = opt.UDPSize()
+				}
 				b, err := req.Pack()
 				if err != nil {
 					panic(err)
@@ -573,6 +702,7 @@ func c07ThroughServers(s *kernel.Sim, w *world.World, srv *agd.Server, streams [
 				}
 				if r := byID[m.Id]; r != nil && r.resp == nil {
 					r.resp = m
+					r.c08 = judgeWire(r, m, len(b), overTCP, maxUDP)
 				} else if r == nil {
 					// An ID this client never used: keep it for the report.
 					reqs[0].err = fmt.Errorf("response with foreign id %d: %s", m.Id, c07Describe(m, true))
@@ -585,11 +715,19 @@ func c07ThroughServers(s *kernel.Sim, w *world.World, srv *agd.Server, streams [
 			}
 			local := n.ClientAddr(reqs[0].client)
 			if overTCP {
+				var c net.Conn
 				c, err := n.Dial("198.18.0.1:53", local)
 				if err != nil {
 					panic(err)
 				}
 				defer c.Close()
+				if overTLS {
+					tc := tls.Client(c, &tls.Config{InsecureSkipVerify: true, ServerName: "dns.sim.test", MinVersion: tls.VersionTLS12}) //nolint:gosec
+					if herr := tc.Handshake(); herr != nil {
+						return
+					}
+					c = tc
+				}
 				for _, r := range reqs {
 					pause()
 					b := pack(r)
@@ -634,6 +772,76 @@ func c07ThroughServers(s *kernel.Sim, w *world.World, srv *agd.Server, streams [
 	wg.Wait()
 	s.Probe("streams-through-real-servers")
 }
+
+// judgeWire is C08's judgement of one response as it arrived: its size over
+// UDP, and its OPT record.
+func judgeWire(r *c07Req, m *dns.Msg, size int, overTCP bool, maxUDP uint16) (bad string) {
+	if maxUDP == 0 {
+		return ""
+	}
+	if !overTCP {
+		limit := max(512, int(min(r.sentSize, maxUDP)))
+		if size > limit {
+			return fmt.Sprintf("UDP response larger than the limit: %d octets on the wire, limit %d (tc=%v, %d answers)", size, limit, m.Truncated, len(m.Answer))
+		}
+	}
+	if m.Truncated && len(m.Answer) > 0 {
+		return fmt.Sprintf("truncated response keeps answers: %d", len(m.Answer))
+	}
+	opt := m.IsEdns0()
+	if r.sentSize > 0 {
+		switch {
+		case opt == nil:
+			return "query with an OPT record got a response without one: -"
+		case opt.UDPSize() != r.sentSize:
+			return fmt.Sprintf("response OPT does not carry the client's UDP size: %d", opt.UDPSize())
+		case opt.Version() != 0:
+			return fmt.Sprintf("response OPT version is not 0: %d", opt.Version())
+		}
+	}
+	if opt != nil {
+		for _, o := range opt.Option {
+			switch o.(type) {
+			case *dns.EDNS0_PADDING:
+				if !r.padding {
+					return "padding although the client sent no padding option: -"
+				}
+			case *dns.EDNS0_TCP_KEEPALIVE:
+				if !r.keepAlive {
+					return "keep-alive option returned to a client that did not send it: -"
+				}
+			}
+		}
+	}
+
+	return ""
+}
+
+// simCert is a certificate for the DoT server of the C08 part (one per
+// process, valid at bubble time).
+var simCert = sync.OnceValue(func() tls.Certificate {
+	key, err := ecdsa.GenerateKey(elliptic.P256(), crand.Reader)
+	if err != nil {
+		panic(err)
+	}
+	tmpl := &x509.Certificate{
+		SerialNumber:          big.NewInt(1),
+		Subject:               pkix.Name{Organization: []string{"verif sim"}},
+		NotBefore:             time.Date(1990, 1, 1, 0, 0, 0, 0, time.UTC),
+		NotAfter:              time.Date(2100, 1, 1, 0, 0, 0, 0, time.UTC),
+		KeyUsage:              x509.KeyUsageDigitalSignature | x509.KeyUsageCertSign,
+		ExtKeyUsage:           []x509.ExtKeyUsage{x509.ExtKeyUsageServerAuth},
+		BasicConstraintsValid: true,
+		IsCA:                  true,
+		DNSNames:              []string{"dns.sim.test"},
+	}
+	der, err := x509.CreateCertificate(crand.Reader, tmpl, tmpl, &key.PublicKey, key)
+	if err != nil {
+		panic(err)
+	}
+
+	return tls.Certificate{Certificate: [][]byte{der}, PrivateKey: key}
+})
 
 // addECS gives the request a client-subnet option.
 func addECS(req *dns.Msg, ecs string) {
